@@ -49,6 +49,15 @@ def gen_pair(rng, idx):
             phases = phases[:1]
             phases[0]["next"] = "aux"
         progs.append({"name": "pair%d_%s" % (idx, "AB"[which]), "phases": phases, "initial": "main"})
+    if rng.random() < 0.3:
+        # one method's temporary is called like the (only) loop counter name the generator uses
+        k = rng.choice([0, 1])
+        used = pg.var_roles(progs[k])
+        cand = [n for n in ("a", "b", "c") if n in used]
+        if cand and "i" not in used:
+            nm = progs[k]["name"]
+            progs[k] = pg.rename_vars(progs[k], {rng.choice(cand): "i"})
+            progs[k]["name"] = nm
     return progs
 
 
@@ -63,6 +72,22 @@ CORPUS = [
             ["assign", "<state>y", pg.V("acc"), []]]),
      pg.P1([["assign", "acc", pg.C(1), []], ["assign", "acc", pg.MUL(pg.V("acc"), pg.ADD(pg.V("i"), pg.C(1))), [["i", pg.C(0), pg.C(2)]]],
             ["assign", "<state>z", pg.V("acc"), []]])),
+    # a loop counter of one method is an ordinary per-step temporary of the other (read by several statements)
+    (pg.P1([["assign", "acc", pg.C(0), []], ["assign", "acc", pg.ADD(pg.V("acc"), pg.V("i")), [["i", pg.C(0), pg.C(3)]]],
+            ["assign", "<state>y", pg.V("acc"), []]]),
+     pg.P1([["assign", "i", pg.ADD(pg.V("<state>x"), pg.C(1)), []], ["assign", "<state>z", pg.MUL(pg.V("i"), pg.C(2)), []],
+            ["assign", "<p>kb", pg.ADD(pg.V("i"), pg.T), []]])),
+    (pg.P1([["assign", "i", pg.ADD(pg.V("<state>x"), pg.DT), []], ["assign", "<p>ka", pg.V("i"), []], ["assign", "<state>y", pg.ADD(pg.V("i"), pg.Y), []]]),
+     pg.P1([["assign", "acc", pg.C(1), []], ["assign", "acc", pg.MUL(pg.V("acc"), pg.ADD(pg.V("i"), pg.C(1))), [["i", pg.C(0), pg.C(2)]]],
+            ["assign", "<state>z", pg.V("acc"), []]])),
+    # ... and the loop's own statement does not mention its counter (C16-F4)
+    (pg.P1([["assign", "i", pg.ADD(pg.V("<state>x"), pg.C(1)), []], ["assign", "<state>y", pg.MUL(pg.V("i"), pg.C(2)), []],
+            ["assign", "<p>ka", pg.ADD(pg.V("i"), pg.T), []]]),
+     pg.P1([["assign", "acc", pg.C(1), []], ["assign", "acc", pg.ADD(pg.V("acc"), pg.C(2)), [["i", pg.C(0), pg.C(3)]]],
+            ["assign", "<state>z", pg.V("acc"), []]])),
+    (pg.P1([["assign", "acc", pg.C(0), []], ["assign", "acc", pg.ADD(pg.V("acc"), pg.DT), [["i", pg.C(0), pg.C(2)]]],
+            ["assign", "<state>y", pg.V("acc"), []]]),
+     pg.P1([["assign", "i", pg.V("<state>x"), []], ["assign", "<state>z", pg.ADD(pg.V("i"), pg.Z), []], ["assign", "<p>kb", pg.V("i"), []]])),
     (pg.P1([["assign_call", ["a"], "<func>f", [pg.T, pg.Y], {}], ["assign", "<state>y", pg.ADD(pg.Y, pg.MUL(pg.DT, pg.V("a"))), []],
             pg.yld(pg.Y)]),
      pg.P1([["assign_call", ["a"], "<func>g", [pg.T, pg.Z], {}], ["assign", "<state>z", pg.ADD(pg.Z, pg.MUL(pg.DT, pg.V("a"))), []],
@@ -97,10 +122,33 @@ def fuse(dag1, dag2, pred_name):
 
 
 def names_of(stmts):
+    """Every variable name the statements mention, collected independently of the statements' own declared read / write
+    sets (which fusion itself relies on): assignees, loop identifiers, and the variables of every expression."""
+    from pymbolic.mapper.dependency import DependencyMapper
+    from pymbolic.primitives import Variable
+    dm = DependencyMapper(include_subscripts=False, include_lookups=False, include_calls="descend_args", composite_leaves=False)
     out = set()
+
+    def coll(e):
+        try:
+            out.update(v.name for v in dm(e) if isinstance(v, Variable))
+        except Exception:  # noqa
+            pass
+        return e
     for s in stmts:
         out |= set(s.get_read_variables()) | set(s.get_written_variables())
-    return out
+        s.map_expressions(coll)
+        if getattr(s, "condition", True) is not True:
+            coll(s.condition)
+        for ident, lo, hi in (getattr(s, "loops", None) or []):
+            out.add(ident)
+            coll(lo)
+            coll(hi)
+        if getattr(s, "assignee", None):
+            out.add(s.assignee)
+        for a in (getattr(s, "assignees", None) or []):
+            out.add(a)
+    return {n for n in out if not n.startswith("<func>") and not n.startswith("<builtin>")}
 
 
 def structural(dag1, dag2, fused, pred_name):
